@@ -62,6 +62,43 @@ func (e *Expression) AcceptExpression(expression *Expression) error {
 	return errors.New("Expression already set twice! ")
 }
 
+//compareIntegers compares two integers of any signedness and width: -1 if a < b, 0 if equal, 1 if a > b
+func compareIntegers(a, b reflect.Value) int {
+	aSigned := a.Kind() >= reflect.Int && a.Kind() <= reflect.Int64
+	bSigned := b.Kind() >= reflect.Int && b.Kind() <= reflect.Int64
+	if aSigned && bSigned {
+		if a.Int() < b.Int() {
+			return -1
+		} else if a.Int() > b.Int() {
+			return 1
+		}
+		return 0
+	}
+	if aSigned && a.Int() < 0 {
+		return -1
+	}
+	if bSigned && b.Int() < 0 {
+		return 1
+	}
+	var au, bu uint64
+	if aSigned {
+		au = uint64(a.Int())
+	} else {
+		au = a.Uint()
+	}
+	if bSigned {
+		bu = uint64(b.Int())
+	} else {
+		bu = b.Uint()
+	}
+	if au < bu {
+		return -1
+	} else if au > bu {
+		return 1
+	}
+	return 0
+}
+
 func (e *Expression) Evaluate(dc *context.DataContext, Vars map[string]reflect.Value) (reflect.Value, error) {
 
 	//priority to calculate single value
@@ -172,6 +209,28 @@ func (e *Expression) Evaluate(dc *context.DataContext, Vars map[string]reflect.V
 		//data compare
 		if l, ok1 := TypeMap[tlv.Kind().String()]; ok1 {
 			if r, ok2 := TypeMap[trv.Kind().String()]; ok2 {
+				//two integers are compared exactly over the whole 64-bit range, float64 can not tell 2^53 from 2^53+1
+				if l != "float32" && l != "float64" && r != "float32" && r != "float64" {
+					c := compareIntegers(flv, frv)
+					switch e.ComparisonOperator {
+					case "==":
+						b = reflect.ValueOf(c == 0)
+					case "!=":
+						b = reflect.ValueOf(c != 0)
+					case ">":
+						b = reflect.ValueOf(c > 0)
+					case "<":
+						b = reflect.ValueOf(c < 0)
+					case ">=":
+						b = reflect.ValueOf(c >= 0)
+					case "<=":
+						b = reflect.ValueOf(c <= 0)
+					default:
+						return reflect.ValueOf(nil), errors.New(fmt.Sprintf("line %d, column %d, code: %s, Can't be recognized ComparisonOperator: %s", e.LineNum, e.Column, e.Code, e.ComparisonOperator))
+					}
+					goto LAST
+				}
+
 				var ll float64
 				switch l {
 				case "int", "int8", "int16", "int32", "int64":
